@@ -4,7 +4,7 @@
    an arbitrary history of events, the predicates of Observe/Spec.v are RFC 7641 3.4 and the
    property text. *)
 From Coq Require Import ZArith List Bool.
-From GoCoap Require Import Base.Bytes Observe.Model Observe.Spec Observe.Proofs Observe.BwModel Observe.BwSpec Observe.BwProofs Observe.Hash.
+From GoCoap Require Import Base.Bytes Observe.Model Observe.Spec Observe.Proofs Observe.BwModel Observe.BwSpec Observe.BwProofs Observe.Hash Observe.Conc.
 Import ListNotations.
 Open Scope Z_scope.
 
@@ -304,3 +304,31 @@ Proof.
   repeat (destruct Hx as [Hx|Hx]; [subst x; assumption|]).
   contradiction.
 Qed.
+
+(* ---- work package C08k: copies of one notification handled by several goroutines at once ---- *)
+
+(* wantBeNotified tests and records in one critical section, so a batch of goroutines is [want] folded in
+   lock order; the clock readings (taken before the lock) may come in any order.  Copies of one notification
+   whose clock readings are at most 128 s apart reach the callback at most once, from any state. *)
+Theorem C08_concurrent_duplicates_once : forall ts o v,
+  0 <= v < 2 ^ 24 ->
+  (forall t t', In t ts -> In t' ts -> t' - t <= rfc_128s) ->
+  (delivered (snd (batch o v ts)) <= 1)%nat.
+Proof. exact batch_once. Qed.
+Print Assumptions C08_concurrent_duplicates_once.
+
+(* the critical section is exactly "test, then record" *)
+Theorem C08_want_is_check_then_record : forall o v now,
+  want o (Some v) now = if check o v now then (record o v now, true) else (o, false).
+Proof. exact want_check_record. Qed.
+Print Assumptions C08_want_is_check_then_record.
+
+(* non-vacuity / why the atomicity matters: with the test and the recording as two critical sections the
+   schedule check0 check1 record0 record1 delivers both copies of notification 2 (not fresher than itself);
+   the atomic batch delivers one. *)
+Example C08_split_sections_refuted :
+  let o := mkObs 0 [1] 1 1000 false in
+  snd (split_run 2 (fun _ => 2000) [TCheck 0; TCheck 1; TRecord 0; TRecord 1] o (fun _ => false)) = [0%nat; 1%nat]
+  /\ rfc_fresh 2 2 2000 2000 = false
+  /\ snd (batch o 2 [2000; 2000]) = [true; false].
+Proof. exact split_not_once. Qed.
